@@ -283,11 +283,13 @@ class LazyGen:
         self.done = True
 
 class AFunc:
-    """a function value: a def of the interpreted module (or a nested def with the environment it closes over)"""
-    __slots__ = ('fn', 'closure')
-    def __init__(self, fn, closure=None):
+    """a function value: a def of the interpreted module (or a nested def with the environment it closes over), with the module whose names it sees"""
+    __slots__ = ('fn', 'closure', 'module', 'bound')
+    def __init__(self, fn, closure=None, module=None, bound=None):
         self.fn = fn
         self.closure = closure
+        self.module = module
+        self.bound = bound          # receiver of a bound method / class of a classmethod
     def __repr__(self):
         return f"<function {self.fn.name}>"
 
@@ -299,18 +301,72 @@ class ADictOf:
     def __repr__(self):
         return f"<__dict__ of {self.obj!r}>"
 
+TREE_OWNER = {}      # id(module tree) -> (resolver: sibling module name -> tree or None, module name); registered by model.Program
+
+class AClass:
+    """a class of the package as a value: instantiated, or used for its static / class methods and class-level constants"""
+    __slots__ = ('cdef', 'module')
+    def __init__(self, cdef, module=None):
+        self.cdef = cdef
+        self.module = module
+    def __repr__(self):
+        return f"<class {self.cdef.name}>"
+
 class ModuleEnv:
-    """module-level names for the interpreter: functions become AFunc, simple assignments are evaluated on first use, anything else is opaque"""
+    """module-level names for the interpreter: functions become AFunc, classes AClass, simple assignments are evaluated on first use,
+    `from .sibling import name` is followed into the sibling module (its own names resolve there), anything else is opaque"""
+    _by_tree = {}
+    def __new__(cls, tree):
+        ex = cls._by_tree.get(id(tree))
+        if ex is not None and ex.tree is tree:
+            return ex
+        o = super().__new__(cls)
+        cls._by_tree[id(tree)] = o
+        o._init(tree)
+        return o
     def __init__(self, tree):
+        pass
+    def _init(self, tree):
+        self.tree = tree
         self.funcs = {n.name: n for n in tree.body if isinstance(n, (ast.FunctionDef, ast.AsyncFunctionDef))}
         self.classes = {n.name: n for n in tree.body if isinstance(n, ast.ClassDef)}
         self.assigns = {}
+        self.imports = {}      # local name -> (sibling module name, name there | None for the module itself)
         for n in tree.body:
             if isinstance(n, ast.Assign) and len(n.targets) == 1 and isinstance(n.targets[0], ast.Name):
                 self.assigns[n.targets[0].id] = n.value
             elif isinstance(n, ast.AnnAssign) and isinstance(n.target, ast.Name) and n.value is not None:
                 self.assigns[n.target.id] = n.value
+            elif isinstance(n, ast.ImportFrom) and n.level == 1:
+                for al in n.names:
+                    if n.module is None:
+                        self.imports[al.asname or al.name] = (al.name, None)
+                    elif al.name != '*':
+                        self.imports[al.asname or al.name] = (n.module, al.name)
         self.cache = {}
+    def sibling(self, name):
+        own = TREE_OWNER.get(id(self.tree))
+        if own is None:
+            return None
+        t = own[0](name)
+        return ModuleEnv(t) if t is not None else None
+    def lookup(self, name, seen=()):
+        """-> ('func', def, env) | ('class', ClassDef, env) | ('assign', expr, env) | ('module', env) | None"""
+        if name in self.funcs:
+            return ('func', self.funcs[name], self)
+        if name in self.classes:
+            return ('class', self.classes[name], self)
+        if name in self.assigns:
+            return ('assign', self.assigns[name], self)
+        if name in self.imports and (id(self), name) not in seen:
+            mod, orig = self.imports[name]
+            sib = self.sibling(mod)
+            if sib is None:
+                return None
+            if orig is None:
+                return ('module', sib)
+            return sib.lookup(orig, seen + ((id(self), name),))
+        return None
 
 _TYPE_NAMES = {'bytes', 'bytearray', 'int', 'str', 'float', 'bool', 'list', 'dict', 'tuple', 'set', 'NoneType'}
 
@@ -390,7 +446,168 @@ class Interp:
         self.raised = None
 
     # ------------------------------------------------------------ function call
-    def call_function(self, fn, args, kwargs=None, closure=None):
+    def module_name(self, m, name):
+        hit = m.lookup(name)
+        if hit is None:
+            return NotImplemented
+        if hit[0] == 'func':
+            return AFunc(hit[1], None, hit[2])
+        if hit[0] == 'class':
+            return AClass(hit[1], hit[2])
+        if hit[0] == 'module':
+            return AObj(__module_env__=hit[1])
+        owner = hit[2]
+        if name not in owner.cache:
+            owner.cache[name] = AOpaque(name)          # cycles
+            saved = self.module
+            self.module = owner
+            try:
+                owner.cache[name] = self.expr(hit[1], {})
+            except (Unknown, RaiseSignal):
+                owner.cache[name] = AOpaque(name)
+            finally:
+                self.module = saved
+        return owner.cache[name]
+
+    def class_mro(self, ac):
+        out = [ac]
+        seen = {id(ac.cdef)}
+        i = 0
+        while i < len(out):
+            c = out[i]; i += 1
+            for b in c.cdef.bases:
+                if isinstance(b, ast.Name) and c.module is not None:
+                    hit = c.module.lookup(b.id)
+                    if hit is not None and hit[0] == 'class' and id(hit[1]) not in seen:
+                        seen.add(id(hit[1])); out.append(AClass(hit[1], hit[2]))
+        return out
+
+    def find_method(self, ac, name):
+        for c in self.class_mro(ac):
+            for n in c.cdef.body:
+                if isinstance(n, (ast.FunctionDef, ast.AsyncFunctionDef)) and n.name == name:
+                    return n, c
+        return None, None
+
+    @staticmethod
+    def _decos(fn):
+        return [d.id if isinstance(d, ast.Name) else (d.attr if isinstance(d, ast.Attribute) else (d.func.id if isinstance(d, ast.Call) and isinstance(d.func, ast.Name) else '?')) for d in fn.decorator_list]
+
+    def base_names(self, ac):
+        return {ast.unparse(b).split('.')[-1] for c in self.class_mro(ac) for b in c.cdef.bases}
+
+    def class_attr(self, ac, name, node=None):
+        """Cls.name : a static / class method, a class-level constant, an enum member"""
+        fn, owner = self.find_method(ac, name)
+        if fn is not None:
+            d = self._decos(fn)
+            if 'classmethod' in d:
+                return AFunc(fn, None, owner.module, bound=ac)
+            return AFunc(fn, None, owner.module)
+        for c in self.class_mro(ac):
+            for n in c.cdef.body:
+                tg = None; val = None
+                if isinstance(n, ast.Assign) and len(n.targets) == 1 and isinstance(n.targets[0], ast.Name):
+                    tg, val = n.targets[0].id, n.value
+                elif isinstance(n, ast.AnnAssign) and isinstance(n.target, ast.Name) and n.value is not None:
+                    tg, val = n.target.id, n.value
+                if tg == name:
+                    key = ('classattr', id(c.cdef), name)
+                    cache = c.module.cache if c.module is not None else self.__dict__.setdefault('_cattr', {})
+                    if key not in cache:
+                        saved = self.module
+                        self.module = c.module or saved
+                        try:
+                            v = self.expr(val, {})
+                        finally:
+                            self.module = saved
+                        if self.base_names(ac) & {'Enum', 'IntEnum', 'Flag', 'IntFlag', 'StrEnum'}:
+                            v = AObj(**{'__class__': ac.cdef.name, '__classdef__': c.cdef, '__module__': c.module, '__enum_member__': name, 'name': AStr([('lit', name)]), 'value': v, '_value_': v})
+                        cache[key] = v
+                    return cache[key]
+        raise Unknown(f"attribute {name} of class {ac.cdef.name} not modelled (line {getattr(node, 'lineno', 0)})")
+
+    def instantiate(self, ac, args, kw, node=None):
+        cdef = ac.cdef
+        bases = self.base_names(ac)
+        if bases & {'Enum', 'IntEnum', 'Flag', 'IntFlag', 'StrEnum'}:
+            # Cls(value): the member with that value
+            if len(args) == 1 and not kw:
+                for n in cdef.body:
+                    if isinstance(n, ast.Assign) and len(n.targets) == 1 and isinstance(n.targets[0], ast.Name) and not n.targets[0].id.startswith('_'):
+                        mem = self.class_attr(ac, n.targets[0].id, node)
+                        if isinstance(mem, AObj) and '__enum_member__' in mem.attrs:
+                            try:
+                                if self.truth(self.compare(ast.Eq(), mem.attrs['value'], args[0], node), node):
+                                    return mem
+                            except Unknown:
+                                pass
+                raise PyError('ValueError', getattr(node, 'lineno', 0))
+            raise Unknown(f"enum construction at line {getattr(node, 'lineno', 0)}")
+        obj = AObj()
+        obj.attrs['__class__'] = cdef.name
+        obj.attrs['__classdef__'] = cdef
+        obj.attrs['__module__'] = ac.module
+        for c in reversed(self.class_mro(ac)):
+            saved = self.module
+            self.module = c.module or saved
+            try:
+                obj.attrs.update(class_constants(self, c.cdef))
+            finally:
+                self.module = saved
+        init, owner = self.find_method(ac, '__init__')
+        is_dc = any(x == 'dataclass' for c in self.class_mro(ac) for x in self._decos(c.cdef))
+        if init is not None:
+            self.call_function(init, [obj] + list(args), kw, module=owner.module)
+        elif is_dc or 'NamedTuple' in bases:
+            flds = []
+            for c in reversed(self.class_mro(ac)):
+                flds += [(n_, c) for n_ in c.cdef.body if isinstance(n_, ast.AnnAssign) and isinstance(n_.target, ast.Name) and 'ClassVar' not in ast.unparse(n_.annotation)]
+            names = [n_.target.id for n_, _ in flds]
+            if len(args) > len(flds):
+                raise PyError('TypeError', getattr(node, 'lineno', 0))
+            given = dict(zip(names, args)); given.update(kw)
+            for n_, c in flds:
+                nm_ = n_.target.id
+                if nm_ in given:
+                    obj.attrs[nm_] = given[nm_]; continue
+                v_ = n_.value
+                if v_ is None:
+                    raise PyError('TypeError', getattr(node, 'lineno', 0))
+                saved = self.module
+                self.module = c.module or saved
+                try:
+                    if isinstance(v_, ast.Call) and isinstance(v_.func, ast.Name) and v_.func.id == 'field':
+                        fk = {k_.arg: k_.value for k_ in v_.keywords}
+                        if 'default_factory' in fk:
+                            c_ = ast.Call(func=fk['default_factory'], args=[], keywords=[])
+                            ast.copy_location(c_, v_); ast.fix_missing_locations(c_)
+                            obj.attrs[nm_] = self.expr(c_, {})
+                        elif 'default' in fk:
+                            obj.attrs[nm_] = self.expr(fk['default'], {})
+                        else:
+                            raise PyError('TypeError', getattr(node, 'lineno', 0))
+                    else:
+                        obj.attrs[nm_] = self.expr(v_, {})
+                finally:
+                    self.module = saved
+            if 'NamedTuple' in bases:
+                obj.attrs['__fields__'] = tuple(names)
+            post, powner = self.find_method(ac, '__post_init__')
+            if post is not None:
+                self.call_function(post, [obj], module=powner.module)
+        elif args or kw:
+            raise Unknown(f"{cdef.name}(...) with arguments and no modelled constructor at line {getattr(node, 'lineno', 0)}")
+        return obj
+
+    def call_function(self, fn, args, kwargs=None, closure=None, module=None):
+        if module is not None and module is not self.module:
+            saved_m = self.module
+            self.module = module
+            try:
+                return self.call_function(fn, args, kwargs, closure)
+            finally:
+                self.module = saved_m
         env = dict(closure) if closure else {}
         params = [a.arg for a in fn.args.args]
         for p, a in zip(params, args):
@@ -617,6 +834,8 @@ class Interp:
             return k
         if isinstance(k, AOpaque) and k.what.replace('.', '').replace('_', '').isalnum() and '.' in k.what:
             return k.what           # an enum member named in the source (PhysicalQuantities.ANGLE): a name is its own key
+        if isinstance(k, AObj) and '__enum_member__' in k.attrs:
+            return f"{k.attrs['__class__']}.{k.attrs['__enum_member__']}"
         raise Unknown(f"dictionary key is abstract at line {getattr(node, 'lineno', 0)}")
 
     def iterate(self, it, node):
@@ -632,6 +851,11 @@ class Interp:
             return [AInt(i) for i in it]
         if isinstance(it, ABytes):
             return [self.byte_to_int(b) for b in it.items]
+        if isinstance(it, AObj) and '__fields__' in it.attrs:
+            return [it.attrs[k] for k in it.attrs['__fields__']]
+        if isinstance(it, AClass) and self.base_names(it) & {'Enum', 'IntEnum', 'Flag', 'IntFlag', 'StrEnum'}:
+            return [self.class_attr(it, n.targets[0].id, node) for n in it.cdef.body
+                    if isinstance(n, ast.Assign) and len(n.targets) == 1 and isinstance(n.targets[0], ast.Name) and not n.targets[0].id.startswith('_')]
         raise Unknown(f"iteration over {type(it).__name__} at line {getattr(node, 'lineno', 0)}")
 
     def assign(self, t, v, env):
@@ -710,6 +934,8 @@ class Interp:
                 return out
             if isinstance(t_, AOpaque):
                 return [t_.what.split('.')[-1]]
+            if isinstance(t_, AClass):
+                return [t_.cdef.name]
             raise Unknown(f"isinstance against {t_!r} at line {getattr(node, 'lineno', 0)}")
         ts = names(t)
         if isinstance(x, ABytes):
@@ -732,6 +958,13 @@ class Interp:
             mine = {'NoneType'}
         elif isinstance(x, AObj) and isinstance(x.attrs.get('__class__'), str):
             mine = {x.attrs['__class__']} | set(x.attrs.get('__bases__', ()))
+            if isinstance(x.attrs.get('__classdef__'), ast.ClassDef):
+                ac_ = AClass(x.attrs['__classdef__'], x.attrs.get('__module__'))
+                mine |= {c_.cdef.name for c_ in self.class_mro(ac_)} | self.base_names(ac_)
+                if '__fields__' in x.attrs:
+                    mine.add('tuple')
+                if '__enum_member__' in x.attrs and self.base_names(ac_) & {'IntEnum', 'IntFlag'}:
+                    mine.add('int')
         else:
             raise Unknown(f"isinstance of {x!r} at line {getattr(node, 'lineno', 0)}")
         return any(t_ in mine for t_ in ts)
@@ -782,13 +1015,9 @@ class Interp:
                 return {'True': True, 'False': False, 'None': None}[e.id]
             m = self.module
             if m is not None:
-                if e.id in m.funcs:
-                    return AFunc(m.funcs[e.id])
-                if e.id in m.assigns:
-                    if e.id not in m.cache:
-                        m.cache[e.id] = AOpaque(e.id)          # cycles
-                        m.cache[e.id] = self.expr(m.assigns[e.id], {})
-                    return m.cache[e.id]
+                r_ = self.module_name(m, e.id)
+                if r_ is not NotImplemented:
+                    return r_
             return AOpaque(e.id)
         if isinstance(e, ast.Lambda):
             fdef = ast.FunctionDef(name='<lambda>', args=e.args, body=[ast.Return(value=e.body)], decorator_list=[], returns=None, type_comment=None, type_params=[])
@@ -805,15 +1034,36 @@ class Interp:
                     return o.attrs[e.attr]
                 if e.attr == '__dict__':
                     return ADictOf(o)
+                if '__module_env__' in o.attrs:
+                    r_ = self.module_name(o.attrs['__module_env__'], e.attr)
+                    if r_ is NotImplemented:
+                        raise Unknown(f"name {e.attr} of a sibling module not found (line {e.lineno})")
+                    return r_
                 cdef = o.attrs.get('__classdef__')
                 fnp = None
                 if isinstance(cdef, ast.ClassDef):
-                    fnp = next((n for n in cdef.body if isinstance(n, ast.FunctionDef) and n.name == e.attr), None)
+                    ac_ = AClass(cdef, o.attrs.get('__module__'))
+                    fnp, own_ = self.find_method(ac_, e.attr)
+                    if fnp is not None:
+                        d_ = self._decos(fnp)
+                        if 'property' in d_ or 'cached_property' in d_:
+                            return self.call_function(fnp, [o], module=own_.module)
+                        if 'staticmethod' in d_:
+                            return AFunc(fnp, None, own_.module)
+                        if 'classmethod' in d_:
+                            return AFunc(fnp, None, own_.module, bound=ac_)
+                        return AFunc(fnp, None, own_.module, bound=o)
+                    try:
+                        return self.class_attr(ac_, e.attr, e)
+                    except Unknown:
+                        pass
                 elif e.attr in self.methods and o.attrs.get('__receiver__', True) is not False:
                     fnp = self.methods[e.attr] if any(isinstance(d, ast.Name) and d.id == 'property' for d in self.methods[e.attr].decorator_list) else None
                 if fnp is not None and any(isinstance(d, ast.Name) and d.id == 'property' for d in fnp.decorator_list):
                     return self.call_function(fnp, [o])
                 raise Unknown(f"attribute {e.attr} not modelled (line {e.lineno})")
+            if isinstance(o, AClass):
+                return self.class_attr(o, e.attr, e)
             if isinstance(o, AOpaque):
                 return AOpaque(f"{o.what}.{e.attr}")
             raise Unknown(f"attribute {e.attr} of {type(o).__name__} at line {e.lineno}")
@@ -994,6 +1244,30 @@ class Interp:
         return AStr(pieces)
 
     def compare(self, op, a, b, node=None):
+        if isinstance(a, AObj) and '__enum_member__' in a.attrs or isinstance(b, AObj) and '__enum_member__' in b.attrs:
+            ea = isinstance(a, AObj) and '__enum_member__' in a.attrs
+            eb = isinstance(b, AObj) and '__enum_member__' in b.attrs
+            # a stand-in written as an opaque dotted name (`PhysicalQuantities.ANGLE`) is that member
+            def dotted(x):
+                return f"{x.attrs['__class__']}.{x.attrs['__enum_member__']}"
+            if isinstance(op, (ast.Is, ast.IsNot, ast.Eq, ast.NotEq)) and (ea != eb) and isinstance(b if ea else a, AOpaque) and '.' in (b if ea else a).what:
+                r_ = dotted(a if ea else b) == (b if ea else a).what
+                return r_ if isinstance(op, (ast.Is, ast.Eq)) else not r_
+            if isinstance(op, (ast.Is, ast.IsNot, ast.Eq, ast.NotEq)) and ea and eb:
+                r_ = a is b or (a.attrs['__enum_member__'] == b.attrs['__enum_member__'] and a.attrs.get('__classdef__') is b.attrs.get('__classdef__'))
+                return r_ if isinstance(op, (ast.Is, ast.Eq)) else not r_
+            if isinstance(op, (ast.Is, ast.IsNot)):
+                return isinstance(op, ast.IsNot)
+            # an IntEnum member against a number: by value; a plain Enum member equals nothing but itself
+            mem, other = (a, b) if ea else (b, a)
+            ac_ = AClass(mem.attrs['__classdef__'], mem.attrs.get('__module__'))
+            if self.base_names(ac_) & {'IntEnum', 'IntFlag', 'StrEnum'}:
+                return self.compare(op, mem.attrs['value'] if ea else a, b if ea else mem.attrs['value'], node)
+            if isinstance(op, (ast.Eq, ast.NotEq)):
+                return isinstance(op, ast.NotEq)
+        if isinstance(a, AObj) and isinstance(b, AObj) and '__fields__' in a.attrs and '__fields__' in b.attrs and isinstance(op, (ast.Eq, ast.NotEq)):
+            r_ = a.attrs['__fields__'] == b.attrs['__fields__'] and all(self.truth(self.compare(ast.Eq(), a.attrs[k], b.attrs[k], node), node) for k in a.attrs['__fields__'])
+            return r_ if isinstance(op, ast.Eq) else not r_
         if isinstance(op, (ast.In, ast.NotIn)) and isinstance(b, ADict):
             r = self.key_of(a, node) in b.items
             return r if isinstance(op, ast.In) else not r
@@ -1200,6 +1474,8 @@ class Interp:
         return AOpaque(f"binop {type(op).__name__}")
 
     def subscript(self, o, sl, env):
+        if isinstance(o, AObj) and '__fields__' in o.attrs:
+            return self.subscript(tuple(o.attrs[k] for k in o.attrs['__fields__']), sl, env)
         if isinstance(o, AOpaque):
             return AOpaque(o.what + '[]')
         if isinstance(o, ADict):
@@ -1381,12 +1657,40 @@ class Interp:
             else:
                 kw[k.arg] = v
         fv = None
+        if isinstance(f, ast.Name) and f.id in env and isinstance(env[f.id], AOpaque) and not env[f.id].what.startswith('exception '):
+            # a local that holds something the interpreter could not follow is being called: what it does is unknown (never "nothing")
+            raise Unknown(f"call of the unknown value {env[f.id]!r} bound to {f.id} at line {e.lineno}")
         if isinstance(f, ast.Name) and (f.id in env or (self.module is not None and f.id in self.module.funcs and f.id not in self.functions)):
             fv = self.expr(f, env)
         elif isinstance(f, (ast.Subscript, ast.Call, ast.IfExp)):
             fv = self.expr(f, env)
+        if fv is None and isinstance(f, ast.Name) and f.id not in env and f.id not in self.classes and f.id not in self.functions and self.module is not None:
+            r_ = self.module_name(self.module, f.id)
+            if isinstance(r_, (AFunc, AClass)):
+                fv = r_
+        if fv is None and isinstance(f, ast.Attribute):
+            # a method of an object of a package class, a static / class method or enum member access through the class, a function of a sibling module
+            # (evaluated once: the generic method dispatch further down reuses this value)
+            try:
+                recv_ = self.expr(f.value, env)
+                self._recv_memo = (f.value, recv_)
+            except Unknown:
+                recv_ = None
+            if isinstance(recv_, AClass) or (isinstance(recv_, AObj) and ('__module_env__' in recv_.attrs or (isinstance(recv_.attrs.get('__classdef__'), ast.ClassDef) and '__module__' in recv_.attrs))):
+                if isinstance(recv_, AObj) and '__fields__' in recv_.attrs and f.attr == '_replace':
+                    o2 = AObj(**dict(recv_.attrs)); o2.attrs.update(kw); return o2
+                if isinstance(recv_, AObj) and '__fields__' in recv_.attrs and f.attr == '_asdict':
+                    return ADict({k_: recv_.attrs[k_] for k_ in recv_.attrs['__fields__']})
+                cand = self.expr(f, env)
+                if isinstance(cand, (AFunc, AClass)):
+                    fv = cand
+        if isinstance(fv, AClass):
+            return self.instantiate(fv, args, kw, e)
         if isinstance(fv, AFunc):
-            return self.call_function(fv.fn, args, kw, closure=fv.closure)
+            a_ = list(args)
+            if fv.bound is not None:
+                a_ = [fv.bound] + a_
+            return self.call_function(fv.fn, a_, kw, closure=fv.closure, module=fv.module)
         if isinstance(f, ast.Name) and f.id in self.classes:
             cdef = self.classes[f.id]
             obj = AObj()
@@ -1458,6 +1762,20 @@ class Interp:
                     c_ = ast.Call(func=e.args[0], args=[ast.Name(id='__map_item', ctx=ast.Load())], keywords=[])
                     ast.copy_location(c_, e); ast.fix_missing_locations(c_)
                     out_.append(self.expr(c_, env2))
+                return AList(out_)
+            if n == 'filter' and len(e.args) == 2 and not kw:
+                out_ = []
+                none_pred = isinstance(e.args[0], ast.Constant) and e.args[0].value is None
+                for el in self.iterate(args[1], e):
+                    if none_pred:
+                        keep = self.truth(el, e)
+                    else:
+                        env2 = dict(env); env2['__filter_item'] = el
+                        c_ = ast.Call(func=e.args[0], args=[ast.Name(id='__filter_item', ctx=ast.Load())], keywords=[])
+                        ast.copy_location(c_, e); ast.fix_missing_locations(c_)
+                        keep = self.truth(self.expr(c_, env2), e)
+                    if keep:
+                        out_.append(el)
                 return AList(out_)
             if n == 'sorted':
                 if set(kw) - {'reverse'} or len(args) != 1:
@@ -1718,7 +2036,12 @@ class Interp:
                         return AInt(sum(b << k for k, b in enumerate(vec)))
                     return AInt(None, vec)
                 raise Unknown(f"int.from_bytes arguments at line {e.lineno}")
-            o = self.expr(f.value, env)
+            memo_ = getattr(self, '_recv_memo', None)
+            if memo_ is not None and memo_[0] is f.value:
+                o = memo_[1]
+                self._recv_memo = None
+            else:
+                o = self.expr(f.value, env)
             if isinstance(o, AOpaque):
                 return AOpaque(f"{o.what}.{m}()")
             if isinstance(o, ADict):
@@ -1926,9 +2249,12 @@ class Interp:
                         pieces.extend(x.pieces if isinstance(x, AStr) else [('opaque', repr(x))])
                     return AStr(pieces)
             if isinstance(o, AObj) and isinstance(o.attrs.get('__classdef__'), ast.ClassDef):
-                own = [n for n in o.attrs['__classdef__'].body if isinstance(n, ast.FunctionDef) and n.name == m]
-                if own:
-                    return self.call_function(own[0], [o] + args, kw)
+                ac_ = AClass(o.attrs['__classdef__'], o.attrs.get('__module__'))
+                fnm_, own_ = self.find_method(ac_, m)
+                if fnm_ is not None:
+                    d_ = self._decos(fnm_)
+                    recv_ = [] if 'staticmethod' in d_ else ([ac_] if 'classmethod' in d_ else [o])
+                    return self.call_function(fnm_, recv_ + args, kw, module=own_.module)
             if isinstance(o, AObj) and m in self.methods:
                 fnm = self.methods[m]
                 static = any(isinstance(d, ast.Name) and d.id == 'staticmethod' for d in fnm.decorator_list)
